@@ -22,7 +22,7 @@ to the column's width, so row `i` of the table holds the `i`-th padded array.
 
 The model is parameterised by a `Variant` (which of the repairs proposed in
 `/verif/proposed_fixes/F8.diff, F9.diff, F10.diff, F121.diff, F122.diff` are present in the code).
-`Variant.current` is the code as it is in `/repo` now (F8, F9, F121 repaired; F10 open); the driver
+`Variant.current` is the code as it is in `/repo` now (F8, F9, F121, F122 repaired; F10 open); the driver
 and the property theorems about "the code" use `Variant.current`.
 -/
 import Mathlib.Data.Rat.Defs
@@ -45,13 +45,13 @@ structure Variant where
   f122 : Bool
 deriving DecidableEq, Repr
 
-/-- the code in `/repo` now: F8 (d91a439), F9 (7c95242) and F121 (bdc0d0d) are repaired; F10 (zero padding
-of polygons) and F122 (ROTANG in the unit of the first angle) are open known findings.  Flag order:
-f8, f9, f10, f121, f122.  Should F10 / F122 be repaired as in `/verif/proposed_fixes/F10.diff, F122.diff`,
-set the flag; `fits_roundtrip_full_refuted` (F10) and `fits_file_roundtrip_full_refuted(')` (F10 / F122)
-in `Props/C12.lean` then stop compiling and are replaced by `(roundTrip_iff _).mpr ⟨rfl, rfl, rfl⟩` /
+/-- the code in `/repo` now: F8 (d91a439), F9 (7c95242), F121 (bdc0d0d) and F122 (562b011) are repaired;
+F10 (zero padding of polygons) is an open known finding.  Flag order: f8, f9, f10, f121, f122.
+Should F10 be repaired as in `/verif/proposed_fixes/F10.diff`, set the third flag;
+`fits_roundtrip_full_refuted` and `fits_file_roundtrip_full_refuted` in `Props/C12.lean` then stop
+compiling and are replaced by `(roundTrip_iff _).mpr ⟨rfl, rfl, rfl⟩` /
 `(fileRoundTrip_iff _).mpr ⟨rfl, rfl, rfl, rfl, rfl⟩`. -/
-def Variant.current : Variant := ⟨true, true, false, true, false⟩
+def Variant.current : Variant := ⟨true, true, false, true, true⟩
 
 /-- the code with all proposed patches. -/
 def Variant.fixed : Variant := ⟨true, true, true, true, true⟩
